@@ -325,12 +325,12 @@ def read_outputs(res):
     return out
 
 
-def solo_ref(desc, name, env):
+def solo_ref(desc, name, env, alt=True):
     d = solo_desc(desc, name)
-    key = ("c15solo", common.desc_key(d, ("sandbox", "argv", "umask")))
+    key = ("c15solo", alt, common.desc_key(d, ("sandbox", "argv", "umask")))
     if key in env.cache:
         return env.cache[key]
-    r = env.run(d, keep_files=("out/j.json", "out/j.xml"), alt=True)
+    r = env.run(d, keep_files=("out/j.json", "out/j.xml"), alt=alt)
     n = os.path.normpath(name)
     ent = {
         "status": r["status"],
@@ -397,7 +397,7 @@ def expected_sequences(desc, res):
 # oracle O15
 
 
-def evaluate(desc, res, env):
+def evaluate(desc, res, env, alt=True):
     V = []
 
     def add(cls, target, observed):
@@ -429,7 +429,7 @@ def evaluate(desc, res, env):
     stop_name = None
     solos = {}
     for n in dict.fromkeys(flat):
-        solos[n] = solo_ref(desc, n, env)
+        solos[n] = solo_ref(desc, n, env, alt=alt)
     if any(s["status"] != "exit" for s in solos.values()):
         return None  # batch contains a file VSG cannot handle on its own: excluded (DESIGN 4/C15 c)
     # where does VSG itself stop the batch?
@@ -566,10 +566,14 @@ def judge(desc, env):
     V = evaluate(desc, res, env)
     if V is None:
         return None, res
-    if V:
-        # a disagreement that disappears when the solo runs use the batch's hash-seed class is a
-        # dependence on the hash seed, reported as such (C06's repeatability clause)
-        pass
+    if V and env.alt is not None:
+        # a disagreement that disappears when the solo runs use the batch's own hash-seed class is a
+        # dependence on the hash seed rather than on neighbours: say so in the violation
+        V2 = evaluate(desc, res, env, alt=False)
+        if V2 is not None and not V2:
+            for v in V:
+                v["observed"] = dict(v.get("observed") or {}, hash_seed_dependence=True, was=v["class"])
+                v["class"] = "hash-seed-dependence"
     return V, res
 
 
